@@ -66,6 +66,7 @@ pub struct State {
     /// the receiver's host as given on the command line, and whether a requested name had to be replaced
     pub host: String,
     pub host_fallback: bool,
+    pub faulty: Arc<FaultyBinder>,
     recv_buf: Vec<u8>,
     /// datagrams handed to the instant-forward channel (production forwards them to the client)
     pub instant_forwarded: Vec<Vec<u8>>,
@@ -77,6 +78,25 @@ pub struct State {
 pub struct Shell {
     pub rt: tokio::runtime::Runtime,
     pub st: State,
+}
+
+/// The shell's uplink binder: the production `SourceIpBinder`, plus two things a harness needs - a log of every
+/// bind call (a socket is being opened for that address) and a set of addresses whose bind is refused (fault:
+/// the source address is gone).
+#[derive(Default)]
+pub struct FaultyBinder {
+    pub refuse: std::sync::Mutex<std::collections::BTreeSet<IpAddr>>,
+    pub calls: std::sync::Mutex<Vec<IpAddr>>,
+}
+
+impl UplinkBinder for FaultyBinder {
+    fn bind(&self, sock: &socket2::Socket, ip: IpAddr) -> anyhow::Result<()> {
+        self.calls.lock().unwrap().push(ip);
+        if self.refuse.lock().unwrap().contains(&ip) {
+            return Err(anyhow::anyhow!("bind refused (injected: source address unavailable)"));
+        }
+        SourceIpBinder.bind(sock, ip)
+    }
 }
 
 fn big_rcvbuf(s: &StdUdp) {
@@ -125,7 +145,8 @@ impl Shell {
         client.set_nonblocking(true).unwrap();
         big_rcvbuf(&client);
         let client_addr = client.local_addr().unwrap();
-        let binder: Arc<dyn UplinkBinder> = Arc::new(SourceIpBinder);
+        let faulty = Arc::new(FaultyBinder::default());
+        let binder: Arc<dyn UplinkBinder> = faulty.clone();
         let ips: Vec<IpAddr> = addrs.iter().map(|k| link_ip(*k)).collect();
         let (conns, conn_io, listener) = rt.block_on(async {
             let mut conn_io: ConnIoMap = HashMap::new();
@@ -164,6 +185,7 @@ impl Shell {
                 binder,
                 host,
                 host_fallback,
+                faulty,
                 recv_buf: vec![0u8; srtla_protocol::MTU],
                 instant_forwarded: Vec::new(),
                 housekeeping_error: None,
@@ -266,6 +288,23 @@ impl Shell {
         if let Some(conn) = self.st.conns.get(idx) {
             let _ = self.st.packet_tx.send(vh::UplinkPacket { conn_id: conn.conn_id, bytes: SmallVec::from_slice_copy(bytes) });
         }
+    }
+
+    /// Refuse (or allow again) every later attempt to open a socket for the address of link `idx`.
+    pub fn refuse_bind(&mut self, idx: usize, on: bool) {
+        if let Some(c) = self.st.conns.get(idx) {
+            let mut r = self.st.faulty.refuse.lock().unwrap();
+            if on {
+                r.insert(c.local_ip);
+            } else {
+                r.remove(&c.local_ip);
+            }
+        }
+    }
+
+    /// The addresses a socket was opened (or tried to be opened) for since the last call.
+    pub fn take_bind_calls(&mut self) -> Vec<IpAddr> {
+        std::mem::take(&mut *self.st.faulty.calls.lock().unwrap())
     }
 
     /// Spawn the real reader task of every link on the shell's (current-thread) runtime, as the loop's
